@@ -464,6 +464,16 @@ func (rr *restartRun) compareRecovered(prop string, old, got map[string]*CanonKe
 		o := old[k]
 		g := got[k]
 		curKey = k
+		// one LockId can hold a key twice as two separate holds (a waiter of that LockId woken while
+		// another hold of it exists); replay folds their records into one re-entrant hold: same
+		// family as the re-lock differences (finding F22)
+		seenLid := map[string]bool{}
+		for _, h := range o.Holds {
+			if seenLid[h.Lid] {
+				tainted[k] = true
+			}
+			seenLid[h.Lid] = true
+		}
 		if tainted[k] {
 			w.probe("keys_with_changed_terms")
 		} else {
@@ -489,6 +499,10 @@ func (rr *restartRun) compareRecovered(prop string, old, got map[string]*CanonKe
 				expectAny = true
 			}
 			switch {
+			case mustLive && !present && h.EFlag&efMs != 0 && rr.recovered[k+"/"+h.Lid]:
+				// the other side of finding F21: an earlier restart gave this millisecond hold its full
+				// period again, so it outlives its own log record, which the next start skips as expired
+				bad("ms_renewed_hold_lost", "key %s: hold %s with millisecond expiry had been renewed by an earlier restart (deadline %d); its record had expired by the load time %d and the hold is gone", k, h.Lid[2:6], h.Deadline, loadFrom)
 			case mustLive && !present:
 				bad("hold_lost", "key %s: persisted hold %s (depth %d, deadline %d, load time %d) is not held after the restart", k, h.Lid[2:6], h.Depth, h.Deadline, loadFrom)
 			case mustDead && present:
